@@ -3,6 +3,9 @@ import sys, os
 sys.path.insert(0, os.path.join(os.path.dirname(os.path.abspath(__file__)), "rules"))
 import fsm
 import lazy
+import idx
+import mpt
+import sib
 
 
 def _c11_fsm(ctx):
@@ -17,6 +20,56 @@ def _c04(ctx):
 
 
 PROPS = {
+    "C01": {
+        "rules": [idx.rule_idx_c01, mpt.rule_mpt_c01],
+        "explanation": "R-IDX: index-space qualifier inference (U original unknown, P permuted position, O observation row, ...) over "
+                       "the solution path of all four solvers (AdjEnvelope::solve_*, Envelope::set, AdjCholDec::solve, AdjGSO/AdjSVD::solve, "
+                       "SVD::solve/min_subset_x): no integer variable or API slot receives two different index spaces. R-MPT: CFG "
+                       "dominance/post-dominance: the homogenisation step and all of AdjInputData precede every solver reset in "
+                       "LocalNetwork::project_equations, min_x(n, list) follows every reset on every path, the ordering is computed before "
+                       "the envelope is laid out and factorised before it is solved. Optimality and the arithmetic of the factorisations "
+                       "are not decided.",
+    },
+    "C02": {
+        "rules": [sib.rule_solver_siblings, sib.rule_badreg_signalled, sib.rule_error_counters_consumed, lazy.rule_lazy_solvers],
+        "explanation": "R-SIB: the four AdjBase implementations implement every pure virtual of the interface; R-ERR: each solver's "
+                       "solve path reaches a throw of Exception::BadRegularization and the ICGS error counter is consumed; R-LAZY L1/L2 "
+                       "for every query of every solver (same typestate obligations for the four siblings). Numerical agreement of the "
+                       "four algorithms is not decided.",
+    },
+    "C03": {
+        "rules": [idx.rule_idx_c03],
+        "explanation": "R-IDX restricted to the cofactor queries and their helpers (q_xx, q0_xx, q_bb, q_bx, T_row, T, dot) of the four "
+                       "solvers and Adj::q_bb, plus the cache rule: every MoveToFront cache object is looked up with keys of one index space. "
+                       "The algebraic identities of the generalised inverse are not decided.",
+    },
+    "C10": {
+        "rules": [sib.rule_finish_siblings, mpt.rule_mpt_c10],
+        "explanation": "R-SIB(b): each of GKFparser::finish_obs/hdiffs/coords/vectors compares the declared covariance dimension with "
+                       "the number of observations of the cluster before the matrix is filled (CFG dominance) and factorises a copy "
+                       "under try/catch -> error(); process_cov accepts only dim >= 1 and 0 <= band < dim. R-MPT: homogenisation / "
+                       "covariance blocks precede every solver reset. Numerical equivalence with the whitened problem is not decided.",
+    },
+    "C14": {
+        "rules": [sib.rule_removed_pairing, sib.rule_obs_partition, mpt.rule_mpt_c14],
+        "explanation": "R-PAIR P1: every set_unused_xy/z in LocalNetwork is post-dominated by removed(id, code) with a reason code of the "
+                       "same axis class; partition: revision_observations puts every observation on exactly one of the used / removed "
+                       "lists, cleared first, and counts the used list; R-MPT: remove_huge_abs_terms re-triggers the revision after "
+                       "deactivating observations. Equality of results with the reduced input is not decided.",
+    },
+    "C16": {
+        "rules": [idx.rule_idx_c16, mpt.rule_mpt_c16],
+        "explanation": "R-IDX over SparseMatrixOrdering/ReverseCuthillMcKee/Envelope::set (perm: P->U, invp: U->P, graph nodes U, "
+                       "envelope rows P); R-MPT: inverse_permutaion() follows algorithm() on every path of SparseMatrixOrdering::reset, "
+                       "the ordering precedes Envelope::set, cholDec precedes solve. Numerical equality with dense LDL' is not decided.",
+    },
+    "C20": {
+        "rules": [idx.rule_idx_c20, sib.rule_badreg_signalled, sib.rule_error_counters_consumed, sib.rule_nullspace_catch],
+        "explanation": "R-IDX on the four lindep implementations (the index handed to the factor / permutation / singular-value "
+                       "store is in the space that store expects); R-ERR: every solver can signal an unresolvable regularisation and "
+                       "LocalNetwork::null_space() handles exactly Exception::BadRegularization, rethrows everything else, and removes "
+                       "the flagged unknown's point with a reason. That the flagged set has a full-rank complement is not decided.",
+    },
     "C04": {
         "rules": [_c04],
         "explanation": "R-LAZY: abstract interpretation of the lazy-evaluation flags (sets of complete flag valuations, "
